@@ -24,6 +24,18 @@ from .. import REPO_ROOT
 def _apply(variant, root=REPO_ROOT):
     """Returns overlay dict or None when stale."""
     overlay = {}
+    if variant.get("base"):
+        # the variant is an edit of a stored refactor patch (e.g. a mutation of
+        # a re-architected tree)
+        from . import patches
+
+        path = os.path.join(os.path.dirname(os.path.dirname(os.path.dirname(os.path.abspath(__file__)))), "refactors", variant["base"], "patch.diff")
+        try:
+            overlay = dict(patches.overlay_of(path))
+        except Exception:
+            return None
+        if not overlay:
+            return None
     for edit in variant["edits"]:
         rel, old, new = edit[:3]
         everywhere = len(edit) > 3 and edit[3] == "all"
@@ -68,6 +80,8 @@ def _run_one(variant):
     # refactor
     if code == 0:
         return variant["id"], "ok", "silent"
+    if code == 2 and variant["kind"] == "refusal":
+        return variant["id"], "ok", f"refused: {err}"[:160]
     if code == 1:
         return variant["id"], "FAIL", "false alarm: " + "; ".join(f"{f.rule} {f.message[:80]}" for f in chk.findings)
     return variant["id"], "FAIL", f"analysis error on a refactor: {err}"
